@@ -68,38 +68,47 @@ var vC16Docs = []string{
 	"JSIGHT 0.3\nTYPE @r regex\n/z+/\nURL /rpc\n  Protocol json-rpc-2.0\n  Method m\n    Params\n    {\"p\": @r}\n    Result\n    [@r]\n",
 }
 
-// HRepeat (C16, emitter level): a catalog is serialised after a symbolic sequence of
-// earlier calls (serialise / Title, up to three); what is handed to encoding/json is
-// what the FIRST serialisation of a fresh catalog of the same project hands over.
+// HRepeat (C16, emitter level): a catalog is serialised several times, with a symbolic
+// sequence of other calls (serialise / Title, up to three) in between: what is handed to
+// encoding/json is every time what its FIRST serialisation handed over.
 func HRepeat() {
 	doc := vC16Docs[vInt("doc", 0, len(vC16Docs)-1)]
-	fresh, je := vBuildText(doc)
+	c, je := vBuildText(doc)
 	vAssert(je == nil, "c16-fixture-rejected")
-	ref := vEmit(fresh)
-	c, _ := vBuildText(doc)
 	title := c.catalog.Info
+	// every serialisation of THIS catalog is compared with its first one (two builds of one
+	// project may differ in their generated examples: C06, F-C06-regex-example-map-order)
+	var ref []string
+	check := func() {
+		got := vEmit(c)
+		if ref == nil {
+			ref = got
+			return
+		}
+		for i := range ref {
+			if i < len(got) && got[i] != ref[i] {
+				vObserve("diff", ref[i], got[i])
+			}
+		}
+		vAssert(len(got) == len(ref), "c16-serialisation-depends-on-earlier-calls-entity-count")
+		for i := range ref {
+			vAssert(got[i] == ref[i], "c16-serialisation-depends-on-earlier-calls")
+		}
+	}
 	for i := 0; i < 3; i++ {
 		switch vInt("op"+string(rune('0'+i)), 0, 2) {
 		case 1:
-			vEmit(c) // ToJson / ToJsonIndent
+			check() // ToJson / ToJsonIndent
 		case 2:
 			if title != nil {
 				_ = title.Title // Title()
 			}
 		}
 	}
-	got := vEmit(c)
-	for i := range ref {
-		if i < len(got) && got[i] != ref[i] {
-			vObserve("diff", ref[i], got[i])
-		}
-	}
-	vAssert(len(got) == len(ref), "c16-serialisation-depends-on-earlier-calls-entity-count")
-	for i := range ref {
-		vAssert(got[i] == ref[i], "c16-serialisation-depends-on-earlier-calls")
-	}
+	check()
+	check()
 	vReach("repeatable")
-	vObserve("ok", len(got))
+	vObserve("ok", len(ref))
 }
 
 func init() { vRegister("HRepeat", HRepeat) }
